@@ -38,6 +38,7 @@ type IterSpec struct {
 	Where     []*Clause // facts about each yielded value
 	Distinct  SExpr    // key expression that is distinct across yields (optional)
 	Complete  []*Clause // facts assumed at normal end (err == nil)
+	Begins    []*Clause // facts assumed right after the call starts (after havoc of modifies)
 	MayFail   bool
 	ErrResult string // name of the error result (default "err")
 	Ordered   bool
@@ -135,7 +136,7 @@ var clauseKeywords = map[string]bool{
 	"modifies": true, "loop": true, "closure": true, "canary": true, "assert": true, "assume": true, "ghost": true,
 	"spec": true, "axiom": true, "lemma": true, "regex": true, "property": true, "reveal": true,
 	"use": true, "decreases": true, "yields": true, "where": true, "distinct": true, "complete": true,
-	"mayfail": true, "inline": true, "table": true, "package": true, "skip": true, "ordered": true, "rec": true,
+	"mayfail": true, "begins": true, "inline": true, "table": true, "package": true, "skip": true, "ordered": true, "rec": true,
 }
 
 type rawLine struct {
@@ -488,7 +489,7 @@ func (c *Contracts) ParseText(path string, text string, pkgPath string) error {
 				}
 				cur.Iter.YieldVars = append(cur.Iter.YieldVars, SVar{part[:sp], ty})
 			}
-		case "where", "complete":
+		case "where", "complete", "begins":
 			if cur == nil || cur.Iter == nil {
 				return fail(l, "%s outside iterator func", w)
 			}
@@ -498,6 +499,8 @@ func (c *Contracts) ParseText(path string, text string, pkgPath string) error {
 			}
 			if w == "where" {
 				cur.Iter.Where = append(cur.Iter.Where, cl)
+			} else if w == "begins" {
+				cur.Iter.Begins = append(cur.Iter.Begins, cl)
 			} else {
 				cur.Iter.Complete = append(cur.Iter.Complete, cl)
 			}
